@@ -116,6 +116,10 @@ func c16Actions() []c16Action {
 		}},
 		{"admin-DeleteUser", "deleteUserHandler", "", form(deleteUserPath, func(x *c16World) *http.Cookie { return x.ckAdmin }, url.Values{"username": {"alice"}})},
 		{"admin-BootstrapOTP", "generateBootstrapOTP", "", form(generateBoostrapOTPPath, func(x *c16World) *http.Cookie { return x.ckAdmin }, url.Values{"username": {"carol"}})},
+		{"cleanup-pass", "performStateCleanup", "", func(x *c16World, twin int) *http.Request {
+			r, _ := http.NewRequest("VF-CLEANUP", "/", nil)
+			return r
+		}},
 		{"profile-View", "profileHandler", "", func(x *c16World, twin int) *http.Request {
 			return vfReq{Method: "GET", Path: profilePath, Cookies: []*http.Cookie{x.ckA}, Header: map[string]string{"User-Agent": "Chrome/1"}}.Build()
 		}},
@@ -154,6 +158,11 @@ func (x *c16World) final() string {
 }
 
 func c16Serve(x *c16World, req *http.Request) (int, bool) {
+	if req.Method == "VF-CLEANUP" {
+		// one pass of the real background clean-up loop (verifgen turns its sleep into a return)
+		x.w.state.performStateCleanup(30)
+		return 0, false
+	}
 	rec := httptest.NewRecorder()
 	if req.RemoteAddr == "" || req.RemoteAddr == "192.0.2.1:1234" {
 		req.RemoteAddr = "10.0.0.5:40000"
@@ -351,7 +360,7 @@ func init() {
 	vfRegister(&vfeng.Check{
 		ID:    "C16",
 		Level: "model_checking",
-		Rule:  "stateless model checking of the real handlers under a controlled cooperative scheduler (vsched): for every unordered pair (incl. twins) of 19 request kinds that save or delete a profile, consume a one-time value or touch a shared map (thorough: also triples {Disable|Delete} x saver x saver and one-time triples), all interleavings at shim-lock and storage-operation (LoadUserProfile/SaveUserProfile/DeleteUserProfile/...) granularity with at most 2 preemptions (thorough 3) are executed on fresh instances; per execution: vector-clock analysis of the probed RuntimeState fields (localAuthData, vipPushCookie, pendingOauth2, totpLocalRateLimit, signer fields), deadlock/hang detection, and comparison of (responses, upgraded cookies, final token state) with the outcomes of all sequential orders of the same handlers; plus two unseal injections racing each other and a reader of the CA material on a sealed instance (signer fields race-free, one acknowledged transition)",
+		Rule:  "stateless model checking of the real handlers under a controlled cooperative scheduler (vsched): for every unordered pair (incl. twins) of 19 request kinds and one pass of the real background clean-up loop that save or delete a profile, consume a one-time value or touch a shared map (thorough: also triples {Disable|Delete} x saver x saver and one-time triples), all interleavings at shim-lock and storage-operation (LoadUserProfile/SaveUserProfile/DeleteUserProfile/...) granularity with at most 2 preemptions (thorough 3) are executed on fresh instances; per execution: vector-clock analysis of the probed RuntimeState fields (localAuthData, vipPushCookie, pendingOauth2, totpLocalRateLimit, signer fields), deadlock/hang detection, and comparison of (responses, upgraded cookies, final token state) with the outcomes of all sequential orders of the same handlers; plus two unseal injections racing each other and a reader of the CA material on a sealed instance (signer fields race-free, one acknowledged transition)",
 		Assumptions: []string{"preemption happens only at scheduling points: shim Lock, entry and exit of storage operations, spawn, thread end; critical sections of real mutexes (metrics, limiter, admin cache) are atomic at this granularity", "a non-serialisable outcome is a violation only when an acknowledged disable/delete is not in effect at the end or one one-time value is honoured twice; other lost updates are counted in the evidence", "races on fields without probes are left to the Go race detector (not part of this verdict)"},
 		Bounds: func(tier string) map[string]interface{} {
 			b := 2
